@@ -464,6 +464,7 @@ func main() {
 				Body: sbody(k, []reqSpec{mk("/m/a", behaviour{writes[0], pNone, 0}), mk("/x/none", behaviour{writes[8], pNone, 0}), mk("/m/c", behaviour{writes[7], pAfter, 0})}), MinOutcomes: 2},
 		)
 	}
+	sdrive.Budget = 0.6 // the rest of the time cap belongs to the sequential part below
 	cov, viols := sdrive.Collect(scens)
 	// ---- I part: every behaviour x route kind x handler x threshold, sequentially on one Mux each
 	evals := 0
